@@ -21,9 +21,11 @@ package util
 //@ ensures ends-at-end: len(result) > 0 ==> offsetOf(result[len(result)-1]) + len(result[len(result)-1]) == offsetOf(bytes) + len(bytes)
 //@ ensures input-unchanged: forall(0, len(bytes), func(p int) bool { return bytes[p] == old(bytes[p]) })
 //@ loop i: progress: 0 <= i && i < numBytes + splitLen && numBytes == len(bytes) && (len(splitBytes) == 0 ==> i == 0) && (len(splitBytes) > 0 ==> i >= splitLen)
-//@ loop i: done-chunks: len(splitBytes) == 0 || forall(0, len(splitBytes), func(k int) bool { return sameArray(splitBytes[k], bytes)
-//@     && (k+1 < len(splitBytes) ==> len(splitBytes[k]) == splitLen && offsetOf(splitBytes[k+1]) == offsetOf(splitBytes[k]) + splitLen) })
+//@ loop i: done-same-array: len(splitBytes) == 0 || forall(0, len(splitBytes), func(k int) bool { return sameArray(splitBytes[k], bytes) })
+//@ loop i: done-full: len(splitBytes) == 0 || forall(0, len(splitBytes), func(k int) bool { return k+1 < len(splitBytes) ==> len(splitBytes[k]) == splitLen })
+//@ loop i: done-consecutive: len(splitBytes) == 0 || forall(0, len(splitBytes), func(k int) bool { return k+1 < len(splitBytes) ==> offsetOf(splitBytes[k+1]) == offsetOf(splitBytes[k]) + len(splitBytes[k]) })
 //@ loop i: done-first: len(splitBytes) > 0 ==> offsetOf(splitBytes[0]) == offsetOf(bytes)
-//@ loop i: done-last: len(splitBytes) > 0 ==> offsetOf(splitBytes[len(splitBytes)-1]) == offsetOf(bytes) + i - splitLen
+//@ loop i: done-bounds: len(splitBytes) == 0 || forall(0, len(splitBytes), func(k int) bool { return 1 <= len(splitBytes[k]) && len(splitBytes[k]) <= splitLen })
+//@ loop i: done-last: len(splitBytes) > 0 ==> offsetOf(splitBytes[len(splitBytes)-1]) + len(splitBytes[len(splitBytes)-1]) == offsetOf(bytes) + min(i, numBytes)
 //@     && len(splitBytes[len(splitBytes)-1]) == min(i, numBytes) - (i - splitLen)
 //@ end
